@@ -237,6 +237,7 @@ Definition src_Collection_retrieve_inner_type : list string :=  [
 
 Definition src_Array_init : list string :=  [
    "self.contained_type = contained_type if child is None or contained_type is not None else get_inner_type(child)"; 
+   "if size is not None and (isinstance(size, bool) or not isinstance(size, int) or size < 0): ;     raise TypeError(f'The size of an array is a non-negative integer, not {size!r}')"; 
    "self.size = size"; 
    "self.child = child if contained_type is not None else getattr(child, 'child', None)"; 
    "if self.child is not None: ;     self.child.store_in_ast(self.to_mir())"].
